@@ -4,7 +4,6 @@ package verifharness
 import (
 	"fmt"
 	"io"
-	"path/filepath"
 	"runtime/debug"
 	"strings"
 	"testing"
@@ -101,8 +100,8 @@ func genC05(t *rapid.T) *C05Case {
 		"SecRequestBodyLimit 100", "SecRequestBodyInMemoryLimit 16", "SecResponseBodyLimit 60",
 		"SecRequestBodyLimitAction " + rapid.SampledFrom([]string{"ProcessPartial", "Reject"}).Draw(t, "limitaction"),
 		"SecAuditEngine " + rapid.SampledFrom([]string{"Off", "RelevantOnly", "On"}).Draw(t, "auditengine"),
-		"SecAuditLogRelevantStatus ^[45]", "SecAuditLog " + filepath.Join(privateTmp, "c05-audit.log"),
-		"SecUploadDir " + privateTmp}
+		"SecAuditLogRelevantStatus ^[45]", "SecAuditLog " + tmpPlaceholder + "/c05-audit.log",
+		"SecUploadDir " + tmpPlaceholder}
 	// readers: rules that expose state to the outcome
 	items := []Item{}
 	add := func(r *Rule) { items = append(items, Item{Rule: r}) }
